@@ -30,11 +30,8 @@ theorem cmdLoop_no_kill (e : Env) (hk : e.killAt = none) (cs : List Cmd) (k : Na
   | cons c cs ih =>
     simp only [cmdLoop, hk]
     simp only [reduceCtorEq, if_false]
-    split
-    · simp
-    · split
-      · simp
-      · exact ih _ _ _
+    repeat' split
+    all_goals first | exact ih _ _ _ | simp
 
 theorem runBody_skipped (i : Nat) (t : Task) (dry : Bool) (e : Env) (s : State) :
     (runBody cfg H pr i t dry e s).2.skipped = false := by
@@ -50,7 +47,18 @@ theorem runBody_skipped (i : Nat) (t : Task) (dry : Bool) (e : Env) (s : State) 
 theorem run_skipped {i : Nat} {t : Task} (ht : pr.tasks[i]? = some t) (e : Env) (s : State)
     (h : (invoke cfg H pr i .run e s).2.skipped = true) : (isUpToDate H pr t false e.now s).2 = true := by
   rw [invoke_run cfg H pr ht] at h
-  by_cases hu : (isUpToDate H pr t false e.now s).2 = true
+  by_cases hu : ((isUpToDate H pr t false e.now s).2 && !interrupted t e) = true
+  · simp only [Bool.and_eq_true] at hu
+    exact hu.1
+  · rw [if_neg hu, runBody_skipped] at h
+    cases h
+
+/-- … and was not interrupted by a failing sibling -/
+theorem run_skipped_cond {i : Nat} {t : Task} (ht : pr.tasks[i]? = some t) (e : Env) (s : State)
+    (h : (invoke cfg H pr i .run e s).2.skipped = true) :
+    ((isUpToDate H pr t false e.now s).2 && !interrupted t e) = true := by
+  rw [invoke_run cfg H pr ht] at h
+  by_cases hu : ((isUpToDate H pr t false e.now s).2 && !interrupted t e) = true
   · exact hu
   · rw [if_neg hu, runBody_skipped] at h
     cases h
